@@ -30,6 +30,8 @@
 (*                                                                         *)
 (* Named deviations:                                                       *)
 (*   ZeroReadAtChainEnd  (D1) TRUE: a zero-length sector read returns ""   *)
+(*   EmptyWindowReadsNothing (D17) TRUE: a window of length 0 is clipped    *)
+(*                       like any other (FALSE: read as unbounded)         *)
 (*   ReseekTest          TRUE: read re-seeks the substream when its        *)
 (*                       position is not the expected one (mutant FALSE)   *)
 (***************************************************************************)
@@ -40,7 +42,7 @@ CONSTANTS Configs,        \* set of configurations: [base |-> B, flen |-> F, vie
           KeepHist,       \* TRUE: hist is the whole behaviour (for replay); FALSE: only the last call,
                           \*       so the state graph is finite without a depth bound
           OpViews,        \* "targets" | "top" : operations are issued on cfg.targets / on the last view only
-          ZeroReadAtChainEnd, ReseekTest,
+          ZeroReadAtChainEnd, ReseekTest, EmptyWindowReadsNothing,
           EmitCases
 
 VARIABLES cfg, st, hist
@@ -155,7 +157,7 @@ DoRead(c, s, v, size) ==
        LET dta == FileRead(c, s.fpos, size) IN [s |-> [s EXCEPT !.fpos = s.fpos + Len(dta)], data |-> dta]
   ELSE LET d == c.views[v]
            eof == Size(c, v)
-           t0 == IF eof > 0 THEN Min(eof - s.pos[v], size) ELSE size
+           t0 == IF eof > 0 \/ EmptyWindowReadsNothing THEN Min(eof - s.pos[v], size) ELSE size
            t == Max(t0, 0)
            s1 == [s EXCEPT !.ts[v] = t]
            truepos == Tell(s1, d.par)
